@@ -354,6 +354,19 @@ class Intervals:
             return None
         if name in ("count_ones", "leading_zeros", "trailing_zeros"):
             return (0, 128)
+        if name in ("div_ceil", "div_euclid", "checked_div") and len(args) == 2 and ck.startswith("core::num::"):
+            a, b = self.of_operand(args[0], depth), self.of_operand(args[1], depth)
+            if a and b and a[0] >= 0 and b[0] >= 1 and name != "checked_div":
+                up = (lambda x, y: -(-x // y)) if name == "div_ceil" else (lambda x, y: x // y)
+                return (up(a[0], b[1]), up(a[1], b[0]))
+        if name in ("rem_euclid",) and len(args) == 2 and ck.startswith("core::num::"):
+            b = self.of_operand(args[1], depth)
+            if b and b[0] >= 1:
+                return (0, b[1] - 1)
+        if name == "abs_diff" and len(args) == 2 and ck.startswith("core::num::"):
+            a, b = self.of_operand(args[0], depth), self.of_operand(args[1], depth)
+            if a and b:
+                return (0, max(a[1], b[1]) - min(a[0], b[0]))
         return None
 
 
